@@ -1,3 +1,4 @@
 SPECIFICATION Spec
+CONSTANT AllMembers = FALSE
 INVARIANTS UnsoundOnlyF17 SoundOutsideF17
 CHECK_DEADLOCK FALSE
